@@ -25,7 +25,7 @@ from molgri.space.rotobj import SphereGridFactory
 
 PROPERTY = "C08"
 SPECS_Q = ["ico_7", "ico_13", "cube3D_9", "cube3D_27", "randomS_6", "cube4D_5", "cube4D_9", "randomQ_6"]
-GETTERS = ["array", "volumes", "adjacency", "borders", "distances", "full_array"]
+GETTERS = ["array", "volumes", "volumes_approx", "adjacency", "borders", "distances", "full_array"]
 START_SEED = 424242
 _TABLE = None
 
@@ -54,7 +54,7 @@ def observe_fg(fg, getter) -> str:
     if getter in ("array", "full_array"):
         a = np.asarray(fg.get_full_grid_as_array() if getter == "array" else fg.get_position_grid().get_position_grid_as_array())
         return sha(np.ascontiguousarray(a).tobytes(), a.shape)
-    if getter == "volumes":
+    if getter in ("volumes", "volumes_approx"):
         a = np.asarray(fg.get_total_volumes())
         return sha(np.ascontiguousarray(a).tobytes(), a.shape)
     m = {"adjacency": fg.get_full_adjacency, "borders": fg.get_full_borders, "distances": fg.get_full_distances}[getter]().tocoo()
@@ -73,6 +73,9 @@ def observe(obj, getter) -> str:
         return sha(np.ascontiguousarray(a).tobytes(), a.shape)
     if getter == "volumes":
         a = np.asarray(obj.get_spherical_voronoi().get_voronoi_volumes())
+        return sha(np.ascontiguousarray(a).tobytes(), a.shape)
+    if getter == "volumes_approx":
+        a = np.asarray(obj.get_spherical_voronoi().get_voronoi_volumes(approx=True))
         return sha(np.ascontiguousarray(a).tobytes(), a.shape)
     f = {"adjacency": obj.get_voronoi_adjacency, "borders": obj.get_cell_borders, "distances": obj.get_center_distances}[getter]
     m = f().tocoo()
